@@ -28,7 +28,10 @@ from sa import report as R  # noqa: E402
 def run_property(prop: str, project: Project, tier: str) -> R.Report:
     mod = importlib.import_module(f"sa.checks.{prop.lower()}")
     rep = R.Report(prop=prop, tier=tier)
-    mod.check(project, rep)
+    try:
+        mod.check(project, rep)
+    except R.Abort as e:
+        rep.notes.append(f"analysis stopped early after a finding: {e}")
     rep.check_nonvacuous()
     return rep
 
